@@ -434,6 +434,18 @@ def _acc_seed(ctx, site, v):
     fi = site.fi
     ok = False
     for x in walk_own(fi.node):
-        if isinstance(x, ast.If) and "params['seed'].startswith('${')" in norm(x.test):
+        if not isinstance(x, ast.If):
+            continue
+        # `<params>["seed"].startswith("${")` on whatever local holds the parameters
+        t = x.test
+        def is_seed_read(e):
+            if isinstance(e, ast.Subscript):
+                return const_str(ctx, fi.module, e.slice) == (True, "seed")
+            if isinstance(e, ast.Name):  # a local that was read from <params>["seed"]
+                return any(isinstance(a, ast.Assign) and any(isinstance(tg, ast.Name) and tg.id == e.id for tg in a.targets) and is_seed_read(a.value)
+                           for a in walk_own(fi.node) if isinstance(a, ast.Assign) and not isinstance(a.value, ast.Name))
+            return False
+        if isinstance(t, ast.Call) and call_name(t) == "startswith" and t.args and const_str(ctx, fi.module, t.args[0]) == (True, "${") \
+                and isinstance(t.func, ast.Attribute) and is_seed_read(t.func.value):
             ok = any(isinstance(c, ast.Call) and call_name(c) == "insert_xpaths" for st in x.body for c in ast.walk(st))
     return ok, "a seed starting with ${ is substituted; any other seed was validated as a number by the row loop (float())"
